@@ -38,11 +38,12 @@ class Ctx:
         self.model = model if model is not None else Model(overlay)
         fl = getattr(self.model, 'flat', None)
         self._flat_stats = None
-        if fl is not None and (fl.inlined or fl.left or getattr(fl, 'renames', None)):
+        if fl is not None and (fl.inlined or fl.left or getattr(fl, 'renames', None) or getattr(fl, 'gathers', 0)):
             self._flat_stats = {'spliced_call_sites': dict(sorted(fl.inlined.items())),
                                 'left_as_calls': {k: sorted(set(v)) for k, v in sorted(fl.left.items())},
                                 'no_longer_referenced': sorted(getattr(fl, 'dead', [])),
-                                'private_attributes_mapped_back_to_reference_names': dict(getattr(fl, 'renames', {}) or {})}
+                                'private_attributes_mapped_back_to_reference_names': dict(getattr(fl, 'renames', {}) or {}),
+                                'functions_with_gather_spellings_normalised': getattr(fl, 'gathers', 0)}
         self.only_key = only_key
         self.instances: Dict[str, List[str]] = {}
         self.floors: Dict[str, int] = {}
